@@ -274,7 +274,10 @@ def replay_once(pid, path, timeout=900):
         os.makedirs(wd, exist_ok=True)
         log = os.path.join(wd, "replay-log.txt")
         wrapper = list(stage.get("replay_wrapper", stage.get("wrapper", [])))
-        rc, _ = run_proc(wrapper + [binary, "--replay", path] + ([] if wrapper else ["--fork"]), env_for(stage.get("env", {})), timeout, log)
+        renv = env_for(stage.get("env", {}))
+        if stage.get("schedule_dependent"):
+            renv["VF_REPLAY_REPEAT"] = "150"
+        rc, _ = run_proc(wrapper + [binary, "--replay", path] + ([] if wrapper else ["--fork"]), renv, timeout, log)
         sys.stdout.write(read_tail(log, 3000))
         return rc != 0
     impl = STAGE_IMPL[stage["kind"]]
